@@ -29,10 +29,16 @@ def exT : Tree :=
 /-- a `For` wrapper that takes the block as its body -/
 def forCtor (l : Nat) : List Tree → Tree := fun nodes => .mk l 1 nodes []
 
-/-- the `add_loop(guard=True)` wrapper: `For(body=[If(cond, block)])` -/
+/-- a NON-direct wrapper, `For(body=[If(cond, block)])` — the shape `add_loop(guard=True)` built with
+    a single `_wrap` before 7d3e13bb -/
 def guardCtor (l : Nat) : List Tree → Tree := fun nodes => .mk l 1 [.mk (l + 1) 2 nodes []] []
 
 theorem forCtor_direct (l : Nat) : WrapDirect (forCtor l) .body := fun _ => rfl
+
+/-- an `If` wrapper that takes the block as its body (the guard of `add_loop(guard=True)`) -/
+def ifCtor (l : Nat) : List Tree → Tree := fun nodes => .mk l 2 nodes []
+
+theorem ifCtor_direct (l : Nat) : WrapDirect (ifCtor l) .body := fun _ => rfl
 
 /-! ### (d) composition -/
 
@@ -262,21 +268,46 @@ theorem wrap_never_invalid (bp : Path) (a : Attr) (lo hi : Nat) (wa : Attr) (p :
     simp only [wrapFn] at hf
     split at hf <;> (try split at hf) <;> simp at hf
 
-/-- (b) block cursors under wrap -/
-theorem wrap_blockCoh_partial (t n : Tree) (bp : Path) (a : Attr) (lo hi : Nat) (ctor : List Tree → Tree)
+/-- (b) block cursors under wrap (since c40862fa: the wrapper index is `rng.start`) — every block -/
+theorem wrap_blockCoh (t n : Tree) (bp : Path) (a : Attr) (lo hi : Nat) (ctor : List Tree → Tree)
     (wa : Attr) (hd : WrapDirect ctor wa)
-    (hv : t.get? bp = some n) (hlo : lo < hi) (hhi : hi ≤ (n.children a).length)
-    (anchor : Path) (b : Attr) (blo bhi : Nat) (hvb : ValidBlock t anchor b blo bhi)
-    -- missing: blocks inside the wrapped range that do not start at its start
-    -- (`fwd_block` uses `blk_rng.start` as the wrapper's index)
-    (hgood : ¬ (anchor = bp ∧ b = a ∧ lo < blo ∧ bhi ≤ hi)) :
-    BlockCohAt t (wrap t bp a lo hi ctor wa).1 (wrap t bp a lo hi ctor wa).2 anchor b blo bhi := by
+    (hv : t.get? bp = some n) (hlo : lo < hi) (hhi : hi ≤ (n.children a).length) :
+    BlockCoh t (wrap t bp a lo hi ctor wa).1 (wrap t bp a lo hi ctor wa).2 := by
+  intro anchor b blo bhi hvb
   rw [wrap_tree_eq a lo hi ctor wa (by simp [hv])]
   show BlockCohAt t _ (forwardWrap bp a lo hi wa) _ _ _ _
   rw [forwardWrap_eq]
   exact localForward_blockCohAt hv (wrap_nodeSpec n a lo hi ctor wa hd (Nat.le_of_lt hlo) hhi)
     (wrap_nodeInj n a lo hi wa (Nat.le_of_lt hlo)) (wrap_blockSpec n a lo hi ctor wa hd hlo hhi) hvb
-    (fun h1 h2 h3 => hgood ⟨h1, h2, h3.1, h3.2⟩)
+    (fun _ _ => trivial)
+
+/-- wrapping a non-empty range with a direct wrapper: fully coherent, blocks included -/
+theorem wrap_coherentB (t n : Tree) (bp : Path) (a : Attr) (lo hi : Nat) (ctor : List Tree → Tree)
+    (wa : Attr) (hd : WrapDirect ctor wa)
+    (hv : t.get? bp = some n) (hlo : lo < hi) (hhi : hi ≤ (n.children a).length) :
+    CoherentB t (wrap t bp a lo hi ctor wa).1 (wrap t bp a lo hi ctor wa).2 :=
+  { toCoherent := wrap_coherent t n bp a lo hi ctor wa hd hv (Nat.le_of_lt hlo) hhi
+    block := wrap_blockCoh t n bp a lo hi ctor wa hd hv hlo hhi }
+
+/-- the literal model of `DoAddLoop(guard=True)` (since 7d3e13bb): wrap the statement in the guard
+    `if`, then wrap that `if` (same position) in the loop, compose the two forwardings — coherent
+    for every cursor, by `wrap_coherentB` twice and `compose_coherentB` -/
+theorem addLoopGuard_coherent (t n : Tree) (bp : Path) (a : Attr) (i : Nat) (lIf lFor : Nat)
+    (hv : t.get? bp = some n) (hi : i < (n.children a).length) :
+    CoherentB t
+      (wrap (wrap t bp a i (i + 1) (ifCtor lIf) .body).1 bp a i (i + 1) (forCtor lFor) .body).1
+      ((wrap (wrap t bp a i (i + 1) (ifCtor lIf) .body).1 bp a i (i + 1) (forCtor lFor) .body).2.comp
+        (wrap t bp a i (i + 1) (ifCtor lIf) .body).2) := by
+  have c₁ := wrap_coherentB t n bp a i (i + 1) (ifCtor lIf) .body (ifCtor_direct lIf) hv (by omega) (by omega)
+  have hv₁ : (wrap t bp a i (i + 1) (ifCtor lIf) .body).1.get? bp =
+      some (n.setChildren a (wrapList (n.children a) i (i + 1) (ifCtor lIf))) := by
+    rw [wrap_tree_eq a i (i + 1) (ifCtor lIf) .body (by simp [hv])]
+    exact Tree.get?_modBlock_self hv
+  have hlen : i + 1 ≤ ((n.setChildren a (wrapList (n.children a) i (i + 1) (ifCtor lIf))).children a).length := by
+    rw [Tree.children_setChildren_same, wrapList, length_splice _ _ _ _ (by omega) (by omega)]
+    simp
+  exact compose_coherentB c₁
+    (wrap_coherentB _ _ bp a i (i + 1) (forCtor lFor) .body (forCtor_direct lFor) hv₁ (by omega) hlen)
 
 example : Coherent exT (wrap exT [(.body, 0)] .body 0 3 (forCtor 30) .body).1
     (wrap exT [(.body, 0)] .body 0 3 (forCtor 30) .body).2 :=
@@ -284,18 +315,30 @@ example : Coherent exT (wrap exT [(.body, 0)] .body 0 3 (forCtor 30) .body).1
 
 def exWrapAll : Tree × Fwd := wrap exT [(.body, 0)] .body 0 3 (forCtor 30) .body
 
-/-- the deviation: wrap `[s2; s3; s4]`, the block cursor `[s3; s4]` is sent below index 1 of the
-    loop body — but the wrapper is at index 0 and index 1 no longer exists: a dangling cursor
-    (reachable: `divide_loop` + a block cursor into the loop body) -/
-theorem wrap_block_inside_counterexample :
-    exWrapAll.2 (.block [(.body, 0)] .body 1 3) = .ok (.block [(.body, 0), (.body, 1)] .body 1 3) ∧
-    validCursorB exWrapAll.1 (.block [(.body, 0), (.body, 1)] .body 1 3) = false := by
+/-- wrap `[s2; s3; s4]`: the block cursor `[s3; s4]` is found below the wrapper (index 0 of the loop
+    body), at `[1,3)` of the wrapper's body.  (Before c40862fa it was sent below index
+    `blk_rng.start = 1`, a node that no longer exists.) -/
+example :
+    exWrapAll.2 (.block [(.body, 0)] .body 1 3) = .ok (.block [(.body, 0), (.body, 0)] .body 1 3) ∧
+    validCursorB exWrapAll.1 (.block [(.body, 0), (.body, 0)] .body 1 3) = true := by
   decide
+
+example : CoherentB exT exWrapAll.1 exWrapAll.2 :=
+  wrap_coherentB exT (.mk 1 1 [leaf 2, leaf 3, leaf 4] []) _ _ _ _ _ _ (forCtor_direct 30) rfl (by decide) (by decide)
+
+/-- `add_loop(s3, guard=True)` in the example tree -/
+example : CoherentB exT
+    (wrap (wrap exT [(.body, 0)] .body 1 2 (ifCtor 31) .body).1 [(.body, 0)] .body 1 2 (forCtor 30) .body).1
+    ((wrap (wrap exT [(.body, 0)] .body 1 2 (ifCtor 31) .body).1 [(.body, 0)] .body 1 2 (forCtor 30) .body).2.comp
+      (wrap exT [(.body, 0)] .body 1 2 (ifCtor 31) .body).2) :=
+  addLoopGuard_coherent exT (.mk 1 1 [leaf 2, leaf 3, leaf 4] []) [(.body, 0)] .body 1 31 30 rfl (by decide)
 
 def exWrapGuard : Tree × Fwd := wrap exT [(.body, 0)] .body 1 2 (guardCtor 30) .body
 
-/-- `WrapDirect` is necessary (DESIGN F16): with the `add_loop(guard=True)` wrapper the cursor of the
-    wrapped statement `s3` lands on the new `if` (label 31), not on `s3` -/
+/-- `WrapDirect` is necessary: with a wrapper that nests the block one level deeper (what
+    `add_loop(guard=True)` did before 7d3e13bb, DESIGN F16) the cursor of the wrapped statement `s3`
+    lands on the inner `if` (label 31), not on `s3`.  Not current behaviour of any primitive: the
+    harness checks `WrapDirect` on every `_wrap` the primitives perform. -/
 theorem wrap_not_direct_counterexample :
     exWrapGuard.2 (.node [(.body, 0), (.body, 1)]) = .ok (.node [(.body, 0), (.body, 1), (.body, 0)]) ∧
     labelAt exWrapGuard.1 [(.body, 0), (.body, 1), (.body, 0)] = some 31 ∧
